@@ -369,9 +369,14 @@ class Explorer:
                 self._bind(st.target, v, p, st)
             return [p]
         if isinstance(st, ast.AugAssign):
-            v = subst(st.value, env)
+            v = self._inline_expr(subst(st.value, env))
             self._record_calls(v, st.value, p, st)
             cur = subst(ast.fix_missing_locations(_as_load(st.target)), env)
+            if isinstance(st.op, ast.Add) and isinstance(cur, ast.Tuple) and isinstance(v, ast.Tuple) and \
+                    not any(isinstance(e, ast.Starred) for e in list(cur.elts) + list(v.elts)):
+                # tuple += tuple binds a new tuple: the elements of both, in order
+                self._bind(st.target, ast.Tuple(elts=list(copy.deepcopy(cur.elts)) + list(v.elts), ctx=ast.Load()), p, st)
+                return [p]
             if isinstance(st.op, ast.Add) and isinstance(cur, ast.List):
                 # list += iterable extends in place and accepts any iterable (unlike list + x)
                 new = copy.deepcopy(cur)
